@@ -1,5 +1,5 @@
 SPECIFICATION Spec
-CONSTANT Which = "full"
+CONSTANT Which = "core"
 CONSTANT MaxLen = 4
 INVARIANT Total
 INVARIANT BoundedDispatch
